@@ -6,6 +6,7 @@ import PyTrie.Lemmas.RawHistory
 import PyTrie.Lemmas.RawHistoryGet
 import PyTrie.Lemmas.BinRawHistory
 import PyTrie.Lemmas.BinRawAtomic
+import PyTrie.Lemmas.PruneBodies
 import PyTrie.Lemmas.YellowPaper
 /-! # The raw-level write path refines the effect layer (tightens the tie for C01, C02, C04, C05, C06, C07)
 
@@ -187,5 +188,41 @@ theorem bin_refused_saves_nothing (H : Bytes → Bytes) (blank : Hash) (fuel : N
 theorem bin_db_add_only (H : Bytes → Bytes) (blank : Hash) (fuel : Nat) (st : BinRaw.St) (h : Hash) (k : Bits) (v : Bytes) (sub : Bool) :
     ∃ added, (BinRawT.rawSetT H blank fuel st h k v sub).1.db = added ++ st.db :=
   BinRawT.rawSetT_db_suffix H blank fuel st h k v sub
+
+end PyTrie.Props.Raw
+
+/-! ## Pruning tries: what the pruned database holds, read by the raw-level reader (C01, C06)
+
+`ReachOpsNC … prune ops T s`: the executor's run of a history, pruning on or off, with the run-level no-collision facts
+of every step (`NoClobber` in both modes). The pruning invariant of C06 says which *keys* remain; here the *bodies*: the
+database is complete for the current root, so the raw-level reader answers every key correctly from the pruned database. -/
+namespace PyTrie.Props.Raw
+open PyTrie PyTrie.Hex PyTrie.HexD PyTrie.HexW PyTrie.HexRaw
+open PyTrie.Props.C01 (Op run spec)
+
+/-- after every history, pruning on or off: the root pointer is the hash of the tree, the root node and every hashed node
+    below it are stored under their hashes **with their encodings** -/
+theorem pruned_db_complete (Hs : Hashing) (blankRootHash : Hash) (prune : Bool) (ops : List Op) (T : TrieSt) (s : OpSt)
+    (h : ReachOpsNC Hs blankRootHash prune ops T s) : Complete Hs blankRootHash s.store.base T :=
+  reachOpsNC_complete Hs blankRootHash prune ops T s h
+
+/-- one pruning `set` / `delete` keeps the database complete for the new root -/
+theorem prune_op_keeps_complete (Hs : Hashing) (blankRootHash : Hash) (T : TrieSt) (hc : Canon T.tree) (key : Bytes)
+    (val : Option Bytes) (s : OpSt) (hfa : s.store.failAfter = none) (hinv : PruneInv Hs blankRootHash T s)
+    (hcomp : Complete Hs blankRootHash s.store.base T) (hrs : RefSound Hs T.tree (nibs key))
+    (hnc : NoClobber s.store.base (opWrites Hs T key val))
+    (hblank : isBlank (opTree Hs T key val).1 = false → Hs.hashOf (opTree Hs T key val).1 ≠ blankRootHash)
+    (T' : TrieSt) (hok : (opSetDel Hs blankRootHash T key val s).2 = .ok T') :
+    Complete Hs blankRootHash (opSetDel Hs blankRootHash T key val s).1.store.base T' :=
+  opSetDel_prune_complete Hs blankRootHash T hc key val s hfa hinv hcomp hrs hnc hblank T' hok
+
+/-- **`get` over rlp-decoded nodes fetched from the database as the executor left it — pruned or not — returns the last
+    value stored under the key (`b""` if none)**: nothing still needed has been pruned, and what is stored is what is needed -/
+theorem pruned_db_get (H : Bytes → Bytes) (hlen : ∀ b, (H b).length = 32) (prune : Bool) (ops : List Op) (T : TrieSt) (s : OpSt)
+    (h : ReachOpsNC (stdHashing H) (blankRoot H) prune ops T s)
+    (hbk : Dict.get? s.store.base (blankRoot H) = none)
+    (hsm : ∀ h b, Dict.get? s.store.base h = some b → b.length < 2 ^ 64) (key : Bytes) :
+    getD H s.store.base T.root (nibs key) = .ok (spec ops key) :=
+  HexRaw.pruned_db_get H hlen prune ops T s h hbk hsm key
 
 end PyTrie.Props.Raw
